@@ -954,10 +954,15 @@ func (d *DNSFilter) matchHost(
 		return Result{}, nil
 	}
 
+	// The addresses and subnets of the $client modifier are matched as
+	// prefixes, which never contain an address with an IPv6 zone, while the
+	// address of a link-local client always has one.
+	clientIP := setts.ClientIP.WithZone("")
+
 	ufReq := &urlfilter.DNSRequest{
 		Hostname:         host,
 		SortedClientTags: setts.ClientTags,
-		ClientIP:         setts.ClientIP,
+		ClientIP:         clientIP,
 		ClientName:       setts.ClientName,
 		DNSType:          rrtype,
 	}
